@@ -1,5 +1,6 @@
 import Brax.Lemmas.C06Pos
 import Brax.Lemmas.C04Real
+import Brax.Lemmas.C06Q
 /-!
 # C06 — contacts and joint limits are inert until reached; contacts only push
 
@@ -493,5 +494,254 @@ example : PSD (⟨⟨1, 0, 0⟩, ⟨0, 1, 0⟩, ⟨0, 0, 1⟩⟩ : M3 ℝ) ∧ e
     simp only [V3.dot, M3.mulVec]
     nlinarith [mul_self_nonneg v.x, mul_self_nonneg v.y, mul_self_nonneg v.z]
   · simp [exContact]; norm_num
+
+end Brax.C06
+
+/-! # Deepening: the joint-limit theorems stated on the joint coordinates `q`
+
+(`Lemmas/C06Q.lean`, notes `notes/C06-deepen.md`.)  Theorems 11–13, 22, 24 above have their hypothesis
+on the joint angle / offset the code *measures*.  Below the hypothesis is on `q`: the link is in the
+pure joint configuration `j = jcalc q` of a supported kind —
+
+* `PureOne true lq`: hinge about a unit axis (`q ∈ (−π, π]`) or slide along a unit axis (`|q| ≤ 2`);
+* `PureStack true lq`: two / three hinges with orthonormal axes of EITHER handedness (`a2 = ±a0×a1`;
+  the left-handed case is the configuration of defect D7), two / three orthonormal slides, one or two
+  slides followed by a hinge; charts: outer hinges `(−π, π]`, middle hinge and the hinge of
+  slide–hinge `|q| ≤ 1.2`, slides `|q| ≤ 2` —
+
+and the clauses `true = true → InLim q_k lo_k hi_k` of these predicates are the range hypotheses
+(`lo ≤ q ≤ hi`, an absent bound is `∓∞`: weaker than the property's *strictly inside*, see
+`strictlyInside_inLim`).  The measured coordinates are then `q` by C08's identities (`hinge_psi`,
+`hinge2_angles`, `hinge3_angles`, `hinge_theta`, `hinge_phi`) — which is where D7 lived. -/
+namespace Brax.C06
+open Brax MC C04L C06L
+
+/-- the property's hypothesis implies the one the predicates carry -/
+theorem strictlyInside_inLim {q : ℝ} {lo hi : Option ℝ} (h : StrictlyInside q lo hi) :
+    InLim q lo hi := inLim_of_strictlyInside h
+
+/-! ## spring pipeline -/
+
+/-- **Spring, one link, on `q`: range limits that are not reached have no influence.**  `lq` = the
+link's slice of `(q, qd, dofs)`, `l` = the slice of `(tau, dofs)` that `joints.resolve` hands to
+`_one_dof/_two_dof/_three_dof` (`l.qd` carries `tau`).  With `j = jcalc q` and `q` inside every range,
+the joint force with `dof.limit` equals the joint force of the model without limits — for ANY joint
+velocity `jd` and ANY `tau` (not only at rest). -/
+theorem spring_limit_inert_q (lk : LinkP ℝ) (lq l : Kin.LinkIn ℝ) (jd : Motion ℝ)
+    (h : PureOne true lq ∨ PureStack true lq) (hd : l.dofs = lq.dofs) :
+    Spring.jointForce true lk (Kin.jcalc lq).1 jd l
+      = Spring.jointForce false lk (Kin.jcalc lq).1 jd l :=
+  jointForce_limit_inert_q lk lq l jd h hd
+
+/-- **Spring, all links** (`AllPureInside s j tau`: every non-free link `i` has `j_i = jcalc lq_i` with
+`lq_i` as above): `joints.resolve` returns the same constraint forces as for the model with every
+range removed (`noLimits s` = `s` with `dof.limit = None`), for any `jd`, `tau`. -/
+theorem spring_resolve_limit_inert_q (s : Sys ℝ) (st : Spring.State ℝ) (tau : List ℝ)
+    (h : AllPureInside s st.j tau) :
+    Spring.jointForces s st.j st.jd tau = Spring.jointForces (noLimits s) st.j st.jd tau
+    ∧ Spring.resolve s st tau = Spring.resolve (noLimits s) st tau :=
+  ⟨jointForces_limit_inert_q s st.j st.jd tau h, resolve_limit_inert_q s st tau h⟩
+
+/-- **Spring, one whole step**: "a step gives the same result as with the limits removed" — for any
+state whose joint transforms are pure configurations with `q` inside every range, any velocities,
+action, gravity, contacts (`cf`) and `inv` (nothing else in `pipeline.step` reads `dof.limit`). -/
+theorem spring_step_limit_inert_q (inv : List (Tf ℝ) → List (Motion ℝ) → List ℝ × List ℝ)
+    (cf : List (Tf ℝ) → List (Contact ℝ)) (s : Sys ℝ) (st : Spring.State ℝ) (act : List ℝ)
+    (h : AllPureInside s st.j (toTau s act st.q st.qd)) :
+    Spring.step inv cf s st act = Spring.step inv cf (noLimits s) st act :=
+  step_limit_inert_q inv cf s st act h
+
+/-- **Spring, one step from `pipeline.init(sys, q, 0)`: every hypothesis is on `sys` and `q`.**
+`TreeOK s` (consistent tree, unit link frames, identity joint orientation: `Sys.WF` +
+`mjcf.load_model`), every link slice of `q` a free link with a unit quaternion, a `PureOne` or a
+`PureStack` link with `q` inside every range.  Then `j = world_to_joint(forward(q, 0))` is `jcalc` of
+the slices (C04 `w2j_rest` / C08 `worldToJoint_forward_id`) and the step equals the step of the
+limit-free model. -/
+theorem spring_step_init_limit_inert_q (inv : List (Tf ℝ) → List (Motion ℝ) → List ℝ × List ℝ)
+    (cf : List (Tf ℝ) → List (Contact ℝ)) (s : Sys ℝ) (q act : List ℝ) (ht : C04I.TreeOK s)
+    (hk : ∀ l ∈ C04I.ins s q, C04I.RestKind true l) :
+    Spring.step inv cf s (Spring.init s q (List.replicate s.nv 0)) act
+      = Spring.step inv cf (noLimits s) (Spring.init s q (List.replicate s.nv 0)) act :=
+  step_init_limit_inert_q inv cf s q act ht hk
+
+/-! ## positional pipeline -/
+
+/-- **Positional, one link, on `q`.**  For a 1-dof link or one of the six stack kinds in the pure
+configuration `jcalc q` with `q` inside every range — the angle of a hinge in the MIDDLE of a stack
+outside the `allclose` window of `normalize(a1 × p0)` (`StackMid`: `θ = 0 ∨ |sin θ| > 1e-7`, see
+`notes/C04-deepen2.md`) — `_three_dof_joint_update ∘ _sphericalize` gives the same joint displacement
+with `dof.limit` as with `dof.limit = None`; both are zero (the clip leaves the measured `q` alone). -/
+theorem positional_limit_inert_q (lq l : Kin.LinkIn ℝ)
+    (h : PureOne true lq ∨ (PureStack true lq ∧ StackMid lq)) (ht : l.typ = lq.typ)
+    (hd : l.dofs = lq.dofs) :
+    Positional.threeDofJointUpdate (Kin.jcalc lq).1 (Positional.sphericalize true l).1
+        (Positional.sphericalize true l).2
+      = Positional.threeDofJointUpdate (Kin.jcalc lq).1 (Positional.sphericalize false l).1
+        (Positional.sphericalize false l).2
+    ∧ Positional.threeDofJointUpdate (Kin.jcalc lq).1 (Positional.sphericalize true l).1
+        (Positional.sphericalize true l).2 = (⟨0, 0, 0⟩, ⟨0, 0, 0⟩) :=
+  threeDofJointUpdate_limit_inert_q lq l h ht hd
+
+/-- **Positional, all links**: `joints.position_update` is the same with and without limits when the
+joint transforms it computes (`world_to_joint(x, xd)`) are pure configurations with `q` inside every
+range (`AllPureInsidePos`).  (In `pipeline.step` this function acts on the pose AFTER the acceleration
+update, so there is no step-level statement on the incoming `q`.) -/
+theorem positional_position_update_limit_inert_q (s : Sys ℝ) (st : Positional.State ℝ)
+    (h : AllPureInsidePos s ((Kin.worldToJoint s st.x st.xd).map (·.1))) :
+    Positional.jointDisplacements s ((Kin.worldToJoint s st.x st.xd).map (·.1))
+        ((Kin.worldToJoint s st.x st.xd).map (·.2.2.1))
+      = Positional.jointDisplacements (noLimits s) ((Kin.worldToJoint s st.x st.xd).map (·.1))
+        ((Kin.worldToJoint s st.x st.xd).map (·.2.2.1))
+    ∧ Positional.positionUpdate s st = Positional.positionUpdate (noLimits s) st :=
+  ⟨jointDisplacements_limit_inert_q s _ _ h, positionUpdate_limit_inert_q s st h⟩
+
+/-! ## generalized pipeline: inactive EXACTLY when `q` is in the range -/
+section generalizedQ
+variable {K : Type} [Field K] [LinearOrder K] [IsStrictOrderedRing K] [HasPow K]
+
+/-- **`jac_limit`'s position term**: `pos = min(min(q−lo, hi−q), 0)` is `0` exactly when
+`lo ≤ q ≤ hi`, and the mask `pos < 0` holds exactly when `q` is outside the closed range -/
+theorem limit_pos_zero_iff_in_range {q : K} {lo hi : Option K} :
+    (limitPos q lo hi = 0 ↔ InRange q lo hi) ∧ (limitPos q lo hi < 0 ↔ ¬ InRange q lo hi) :=
+  ⟨limitPos_eq_zero_iff, limitPos_neg_iff⟩
+
+/-- **a limit row is the zero row exactly when its coordinate is in the range**; outside, entry `di`
+of the jacobian row is `side = ±1` -/
+theorem limit_row_zero_iff_in_range (nv : Nat) (d : DofP K) (p : SolverParams K) (di : Nat)
+    (hdi : di < nv) (q : K) (qd : List K) :
+    (limitRow nv d p di q qd).1 = List.replicate nv 0 ↔ InRange q d.lo d.hi :=
+  limitRow_zero_iff nv d p di hdi q qd
+
+/-- `constraint_force_inert` with the property's own hypothesis: every limited coordinate of `q`
+STRICTLY inside its range, every contact candidate separated ⇒ the constraint force is that of the
+limit-free, collision-free model, for any solver on either side -/
+theorem constraint_force_inert_strict (solver solver' : List (List K) → List K → List K) (s : Sys K)
+    (sp : List (SolverParams K)) (com : List (V3 K)) (cdof : List (Motion K)) (q qd : List K)
+    (cs : List (GContact K)) (minv : List (List K)) (qfs : List K)
+    (hl : AllStrictlyInside s q) (hc : ∀ c ∈ cs, ¬ c.dist < 0) :
+    force solver s.nv (jacobian s sp com cdof q qd cs).1 (jacobian s sp com cdof q qd cs).2.1
+        (jacobian s sp com cdof q qd cs).2.2 minv qfs
+      = force solver' s.nv [] [] [] minv qfs :=
+  constraint_force_inert solver solver' s sp com cdof q qd cs minv qfs hl.allInRange hc
+
+end generalizedQ
+
+/-! ## non-vacuity: the limited LEFT-HANDED three-hinge stack of defect D7 -/
+
+noncomputable def exDofQ (ang vel : V3 ℝ) (lo hi : Option ℝ) : DofP ℝ :=
+  { motion := ⟨ang, vel⟩, armature := 0, stiffness := 0, damping := 1 / 10, lo := lo, hi := hi,
+    invweight := 1 }
+
+/-- hinges about `(x, y, −z)` (left-handed: `a2 = −a0×a1`) with asymmetric ranges
+`[−1/2, 1] × [−1, 1/5] × [−3/10, 9/10]` at `q = (3/10, −2/5, 1/2)` -/
+noncomputable def exD7 : Kin.LinkIn ℝ :=
+  ⟨.three, [3 / 10, -2 / 5, 1 / 2], [0, 0, 0],
+    [exDofQ ⟨1, 0, 0⟩ ⟨0, 0, 0⟩ (some (-1 / 2)) (some 1),
+     exDofQ ⟨0, 1, 0⟩ ⟨0, 0, 0⟩ (some (-1)) (some (1 / 5)),
+     exDofQ ⟨0, 0, -1⟩ ⟨0, 0, 0⟩ (some (-3 / 10)) (some (9 / 10))]⟩
+
+/-- every coordinate is STRICTLY inside its range -/
+theorem exD7_strict :
+    StrictlyInside (3 / 10 : ℝ) (some (-1 / 2)) (some 1)
+    ∧ StrictlyInside (-2 / 5 : ℝ) (some (-1)) (some (1 / 5))
+    ∧ StrictlyInside (1 / 2 : ℝ) (some (-3 / 10)) (some (9 / 10)) := by
+  refine ⟨⟨fun l hl => ?_, fun u hu => ?_⟩, ⟨fun l hl => ?_, fun u hu => ?_⟩,
+    ⟨fun l hl => ?_, fun u hu => ?_⟩⟩ <;>
+  first
+    | (cases hl; norm_num)
+    | (cases hu; norm_num)
+
+theorem exD7_pure : PureStack true exD7 := by
+  have hpi := Real.two_le_pi
+  obtain ⟨s0, s1, s2⟩ := exD7_strict
+  exact PureStack.hhh _ _ _ ⟨1, 0, 0⟩ ⟨0, 1, 0⟩ ⟨0, 0, -1⟩ _ _ _ 0 0 0 rfl rfl rfl rfl
+    (by simp [V3.dot]) (by simp [V3.dot]) (by simp [V3.dot]) (Or.inr (by simp [V3.cross]))
+    (by linarith) (by linarith) (by rw [abs_le]; constructor <;> norm_num) (by linarith) (by linarith)
+    (fun _ => strictlyInside_inLim s0) (fun _ => strictlyInside_inLim s1)
+    (fun _ => strictlyInside_inLim s2)
+
+theorem exD7_stackMid : StackMid exD7 := by
+  intro d1 q1 _ hq
+  simp [exD7] at hq
+  subst hq
+  exact Or.inr (midOK_of_abs _ (by rw [abs_of_neg] <;> norm_num) (by rw [abs_of_neg] <;> norm_num))
+
+/-- the spring limit force of the D7 stack vanishes for every `jd`, `tau`: instance of
+`spring_limit_inert_q` -/
+example (lk : LinkP ℝ) (jd : Motion ℝ) (t0 t1 t2 : ℝ) :
+    Spring.jointForce true lk (Kin.jcalc exD7).1 jd ⟨.three, [], [t0, t1, t2], exD7.dofs⟩
+      = Spring.jointForce false lk (Kin.jcalc exD7).1 jd ⟨.three, [], [t0, t1, t2], exD7.dofs⟩ :=
+  spring_limit_inert_q lk exD7 _ jd (Or.inr exD7_pure) rfl
+
+/-- … and the positional joint update (the function defect D7 was in): instance of
+`positional_limit_inert_q` -/
+example :
+    Positional.threeDofJointUpdate (Kin.jcalc exD7).1 (Positional.sphericalize true exD7).1
+        (Positional.sphericalize true exD7).2
+      = Positional.threeDofJointUpdate (Kin.jcalc exD7).1 (Positional.sphericalize false exD7).1
+        (Positional.sphericalize false exD7).2 :=
+  (positional_limit_inert_q exD7 exD7 (Or.inr ⟨exD7_pure, exD7_stackMid⟩) rfl rfl).1
+
+/-- a limited slide `[−1, 1/2]` at `q = −3/4` along `(0, 3/5, 4/5)`: `PureOne` -/
+example : PureOne true ⟨.one, [-3 / 4], [0],
+    [exDofQ ⟨0, 0, 0⟩ ⟨0, 3 / 5, 4 / 5⟩ (some (-1)) (some (1 / 2))]⟩ := by
+  refine PureOne.slide _ ⟨0, 3 / 5, 4 / 5⟩ _ 0 rfl rfl (by simp [V3.dot]; norm_num)
+    (by rw [abs_le]; constructor <;> norm_num) (fun _ => ⟨fun l hl => ?_, fun u hu => ?_⟩)
+  · simp [exDofQ] at hl; rw [← hl]; norm_num
+  · simp [exDofQ] at hu; rw [← hu]; norm_num
+
+/-- a whole system for `spring_step_init_limit_inert_q`: free root carrying the D7 stack, WITH gravity -/
+noncomputable def exLkQ : LinkP ℝ :=
+  { tf := ⟨⟨0, 0, 0⟩, ⟨1, 0, 0, 0⟩⟩, joint := ⟨⟨0, 0, 0⟩, ⟨1, 0, 0, 0⟩⟩,
+    inertia := ⟨⟨⟨0, 0, 0⟩, ⟨1, 0, 0, 0⟩⟩, ⟨⟨1, 0, 0⟩, ⟨0, 1, 0⟩, ⟨0, 0, 1⟩⟩, 1⟩,
+    invweight := 1, cStiffness := 1, cVelDamping := 1, cLimitStiffness := 1, cAngDamping := 1 }
+
+noncomputable def exSysQ : Sys ℝ :=
+  { types := [.free, .three], parents := [-1, 0], links := [exLkQ, exLkQ],
+    dofs := [exDofQ ⟨0, 0, 0⟩ ⟨1, 0, 0⟩ none none, exDofQ ⟨0, 0, 0⟩ ⟨0, 1, 0⟩ none none,
+      exDofQ ⟨0, 0, 0⟩ ⟨0, 0, 1⟩ none none, exDofQ ⟨1, 0, 0⟩ ⟨0, 0, 0⟩ none none,
+      exDofQ ⟨0, 1, 0⟩ ⟨0, 0, 0⟩ none none, exDofQ ⟨0, 0, 1⟩ ⟨0, 0, 0⟩ none none,
+      exDofQ ⟨1, 0, 0⟩ ⟨0, 0, 0⟩ (some (-1 / 2)) (some 1),
+      exDofQ ⟨0, 1, 0⟩ ⟨0, 0, 0⟩ (some (-1)) (some (1 / 5)),
+      exDofQ ⟨0, 0, -1⟩ ⟨0, 0, 0⟩ (some (-3 / 10)) (some (9 / 10))],
+    hasLimit := true, acts := [], gravity := ⟨0, 0, -981 / 100⟩, dt := 0.002, velDamping := 0,
+    angDamping := 0, baumgarteErp := 0.1, springMassScale := 0, springInertiaScale := 0,
+    jointScaleAng := 0.2, jointScalePos := 0.5, collideScale := 1 }
+
+noncomputable def exQQ : List ℝ := [0, 0, 1, 3 / 5, 0, 4 / 5, 0, 3 / 10, -2 / 5, 1 / 2]
+
+theorem exSysQ_slices : C04I.ins exSysQ exQQ
+    = [⟨.free, [0, 0, 1, 3 / 5, 0, 4 / 5, 0], [0, 0, 0, 0, 0, 0],
+        [exDofQ ⟨0, 0, 0⟩ ⟨1, 0, 0⟩ none none, exDofQ ⟨0, 0, 0⟩ ⟨0, 1, 0⟩ none none,
+         exDofQ ⟨0, 0, 0⟩ ⟨0, 0, 1⟩ none none, exDofQ ⟨1, 0, 0⟩ ⟨0, 0, 0⟩ none none,
+         exDofQ ⟨0, 1, 0⟩ ⟨0, 0, 0⟩ none none, exDofQ ⟨0, 0, 1⟩ ⟨0, 0, 0⟩ none none]⟩, exD7] := by
+  have hnv : exSysQ.nv = 9 := rfl
+  unfold C04I.ins
+  rw [hnv]
+  simp [exSysQ, exQQ, exD7, Kin.linkSlices, LinkType.qWidth, LinkType.qdWidth, List.replicate]
+
+theorem exSysQ_ok : C04I.TreeOK exSysQ ∧ ∀ l ∈ C04I.ins exSysQ exQQ, C04I.RestKind true l := by
+  refine ⟨C04I.TreeOK.of_WF exSysQ (by decide) ?_, ?_⟩
+  · intro lk hlk
+    simp only [exSysQ, List.mem_cons, List.not_mem_nil, or_false, or_self] at hlk
+    subst hlk
+    exact ⟨by simp [exLkQ, Q4.normSq], rfl⟩
+  · intro l hl
+    rw [exSysQ_slices] at hl
+    simp only [List.mem_cons, List.not_mem_nil, or_false] at hl
+    rcases hl with rfl | rfl
+    · exact C04I.RestKind.free 0 0 1 (3 / 5) 0 (4 / 5) 0 _ rfl (by norm_num)
+    · exact C04I.RestKind.stack exD7_pure
+
+/-- all hypotheses of `spring_step_init_limit_inert_q` hold together -/
+example (inv : List (Tf ℝ) → List (Motion ℝ) → List ℝ × List ℝ)
+    (cf : List (Tf ℝ) → List (Contact ℝ)) (act : List ℝ) :
+    Spring.step inv cf exSysQ (Spring.init exSysQ exQQ (List.replicate exSysQ.nv 0)) act
+      = Spring.step inv cf (noLimits exSysQ) (Spring.init exSysQ exQQ (List.replicate exSysQ.nv 0)) act :=
+  spring_step_init_limit_inert_q inv cf exSysQ exQQ act exSysQ_ok.1 exSysQ_ok.2
+
+/-- beyond the range the generalized limit row is NOT zero (the iff is not vacuous) -/
+example : ¬ InRange (3 / 2 : ℝ) (some (-1)) (some 1) := by
+  intro h; have := h.2 1 rfl; norm_num at this
 
 end Brax.C06
